@@ -152,6 +152,7 @@ func mangle(s string) string {
 }
 
 func typeKey(t types.Type) string {
+	t = types.Unalias(t)
 	return types.TypeString(t, func(p *types.Package) string { return p.Path() })
 }
 
